@@ -121,7 +121,7 @@ def run(ck, tier):
     if not ck.anchor("R-C14-locfree", ROOT, tg.find_type(ROOT)):
         return
     fed, adts, undec = hash_graph(p, tg)
-    ck.floor("R-C14-locfree", "ADTs in the hash graph of LintContext", len(adts), 12)
+    ck.floor("R-C14-locfree", "ADTs in the hash graph of LintContext", len(adts), 7)
     ck.extra["hash_graph_adts"] = sorted(last(a["name"]) for a in adts)
     for d, why in undec:
         ck.undecided("R-C14-locfree", "hash-impl:%s" % last(d["name"]), d["span"], why)
@@ -305,7 +305,7 @@ def _context(ck, p):
         for sx in blk["s"]:
             if sx["k"] == "assign" and "kind" in [e[2] for e in sx["lhs"][1:] if isinstance(e, list) and e[0] == "f"]:
                 bad.append(("a direct assignment in parse", sx["ln"]))
-    ck.floor(rule, "kind-writing passes recognised before the dictionary lookup", len(before), 3)
+    ck.floor(rule, "kind-writing passes recognised before the dictionary lookup", len(before), 2)
     if bad:
         ck.refuted(rule, "Document::parse:after-lookup", f.loc(bad[0][1]), "%s runs after the dictionary lookup, rewrites token kinds and looks at other tokens to do so: the kind of a word then depends on words outside the ignore context's window, and an ignored lint comes back when only those are edited" % bad[0][0])
     else:
